@@ -193,6 +193,9 @@ func runC18(env *Env) {
 		{"throw wakes catch event of another process", []c18Proc{{executable: true, task: true, throws: true}, {executable: true, catches: true}},
 			[][2]string{{"H0", "C1"}}, []string{"w", "t:T0", "w", "t:B1", "W", "W"}, []string{"T0", "B1"},
 			func(d map[string]bool) bool { return !d["T0"] || !d["B1"] }, 2},
+		{"two throws at one catch event", []c18Proc{{executable: true, task: true, throws: true}, {executable: true, task: true, throws: true}, {executable: true, catches: true}},
+			[][2]string{{"H0", "C2"}, {"H1", "C2"}}, []string{"w", "t:T0", "w", "t:T1", "w", "t:B2", "W", "W"}, []string{"T0", "T1", "B2"},
+			func(d map[string]bool) bool { return !d["T0"] || !d["T1"] || !d["B2"] }, 3},
 	}
 	for _, sc := range scens {
 		xmlText := c18Build(sc.procs, sc.flows)
